@@ -3,7 +3,8 @@ import re, runner, mergefam
 
 def main(tier, seed, t0, only=None):
     q = tier == 'quick'
-    pairs = [p for p in mergefam.PAIRS20 if not (p[0] in (3, 12) and p[1] in (8, 12, 13))] if q else mergefam.PAIRS20 + [(3, 3), (3, 10), (10, 8)]
+    QP = [(0, 0), (0, 2), (1, 0), (1, 1), (1, 5), (1, 9), (1, 11), (2, 2), (2, 6), (2, 7), (2, 14), (3, 8), (5, 5), (11, 2), (12, 12), (13, 9), (13, 13), (2, 0)]
+    pairs = QP if q else mergefam.PAIRS20 + [(3, 3), (3, 10), (10, 8)]
     J = mergefam.jobs('C20', 20, tier, pairs=pairs)
     if only: J = [j for j in J if re.search(only, j.name)]
     res = runner.run_jobs(J)
